@@ -1,6 +1,6 @@
 (* C17 — Payload accumulator returns exactly the payloads since the last unit start.
    Statements only; proofs in Proofs/AccProofs.v.  Model: Model/Accumulator.v; abstract
-   accumulator and payload_of: Spec/Trackers.v (Module AccSpec).
+   accumulator and payload_of: Spec/AccSpecDef.v (Module AccSpec).
 
    ORACLE: the completion predicate f : accumulated bytes -> (done, err) is ANY function
    (universally quantified in every theorem); it is assumed not to modify the slice it is given.
